@@ -7,4 +7,6 @@ print("|---|---|---|")
 for p in sorted(glob.glob(os.path.join(H, "evidence", "C*.json"))):
     e = json.load(open(p))
     for r in e["coverage"]["rules"]:
+        if "@" in r["rule"]:
+            continue
         print("| %s | %d | %s |" % (r["rule"], r["obligations"], r["statement"].replace("|", "\\|")))
